@@ -106,7 +106,8 @@ JudgeCleanup(e) ==
 JudgeMain(e) ==
     IF ~Forgot(e) THEN Prop("Log_CleanupForgets@registration-survives-main")
     ELSE IF e.unclosed > 0 THEN Prop("Log_CleanupForgets@handle-left-open")
-    ELSE IF e.exc # "" THEN Drift("main_raised")
+    ELSE IF e.kind = "solves" /\ e.exc # "" THEN Drift("main_raised")
+    ELSE IF e.kind = "fails" /\ e.exc = "" THEN Drift("main_did_not_raise")
     ELSE IF ~IdsOK(e) THEN Prop("Log_OrderPreserved@Main")
     ELSE IF ~ExistsOK(e) THEN Drift("main_files")
     ELSE Conform(e)
@@ -152,7 +153,7 @@ TraceNext ==
           /\ obs' = e
           /\ verdict' = Combine(verdict, JudgeCleanup(e))
        \/ /\ e.ev = "Main"
-          /\ Main(e.b)
+          /\ Main(e.b, e.kind)
           /\ obs' = e
           /\ verdict' = Combine(verdict, JudgeMain(e))
        \/ /\ e.ev = "End"
